@@ -2,14 +2,14 @@
 
 PINNED = []   # named deviations describing the tree as pinned (empty once the fix: commits are in)
 
+BOTH = ["full", "nodef"]
 PROPS = {
-    "C10": {"builds": ["full", "nodef"], "mc": []},
-    "C11": {"builds": ["full", "nodef"], "mc": []},
-    "C12": {"builds": ["full", "nodef"], "mc": []},
-    "C01": {"builds": ["full", "nodef"], "mc": []},
-    "C02": {"builds": ["full", "nodef"], "mc": []},
-    "C07": {"builds": ["full", "nodef"], "mc": []},
-    "C08": {"builds": ["full", "nodef"], "mc": []},
+    "C01": {"builds": BOTH}, "C02": {"builds": BOTH}, "C03": {"builds": ["full"]}, "C04": {"builds": BOTH},
+    "C05": {"builds": BOTH}, "C06": {"builds": BOTH}, "C07": {"builds": BOTH}, "C08": {"builds": BOTH},
+    "C09": {"builds": BOTH}, "C10": {"builds": BOTH}, "C11": {"builds": BOTH}, "C12": {"builds": BOTH},
+    "C13": {"builds": BOTH}, "C14": {"builds": BOTH}, "C15": {"builds": BOTH}, "C16": {"builds": BOTH},
+    "C17": {"builds": BOTH}, "C18": {"builds": ["full"]}, "C19": {"builds": ["full"]}, "C20": {"builds": BOTH},
 }
 for _p in PROPS.values():
     _p.setdefault("dev", PINNED)
+    _p.setdefault("mc", [])
